@@ -674,7 +674,9 @@ fn logical(eval_state: &mut EvalState) -> Result<ExprValue> {
 fn comparison(eval_state: &mut EvalState) -> Result<ExprValue> {
     let t = term(eval_state)?;
     if let Ok(mut first) = t.one_number() {
-        if let Some(Token::Symbol(s)) = eval_state.peek().cloned() {
+        // like the other binary operators, comparisons associate left to right:
+        // `3 gt 2 gt 0` is `(3 gt 2) gt 0`
+        while let Some(Token::Symbol(s)) = eval_state.peek().cloned() {
             if let Ok(op) = s.parse::<ComparisonOp>() {
                 eval_state.advance();
                 let second = term(eval_state)?.one_number()?;
@@ -687,6 +689,8 @@ fn comparison(eval_state: &mut EvalState) -> Result<ExprValue> {
                     ComparisonOp::Le => first <= second,
                 };
                 first = comp as i32 as f32;
+            } else {
+                break;
             }
         }
         Ok(first.into())
